@@ -10,7 +10,7 @@
 (*                  101b with mod 00 = no base + disp32), disp8 / disp32,    *)
 (*                  RIP-relative (mod 00 rm 101), imm8/16/32/64, rel8/rel32  *)
 (*   EncodeWith     the reference encoder (shortest displacement form); the  *)
-(*                  law Decode(EncodeWith(e, i)) = i is checked in X64_MC    *)
+(*                  law Decode(EncodeWith(e, ins)) = ins is checked in X64_MC    *)
 (*   Reads / Writes architectural register sets per decoded instruction      *)
 (*                  (al/ax/eax/rax are one register; xmm n is 16 + n)        *)
 (*   Agrees         the decoded instruction is the one a printed assembly    *)
@@ -124,15 +124,15 @@ ParseRM(b, p, rex) ==
 (* regk / rmk  register file of the reg / r/m operand   msz: memory size       *)
 E0 == [map |-> 1, op |-> 0, plus |-> FALSE, ext |-> None, sse |-> FALSE, pfx |-> 0, mn |-> "", enc |-> "ZO", w8 |-> FALSE,
        imm |-> "", d64 |-> FALSE, ssz |-> 0, regk |-> "gpr", rmk |-> "gpr", msz |-> 0, memonly |-> FALSE]
-E(op, mn, enc)  == [E0 EXCEPT !.op = op, !.mn = mn, !.enc = enc]
-E2(op, mn, enc) == [E0 EXCEPT !.map = 2, !.op = op, !.mn = mn, !.enc = enc]
-B8(e)    == [e EXCEPT !.w8 = TRUE]
-I(e, k)  == [e EXCEPT !.imm = k]
-X(e, d)  == [e EXCEPT !.ext = d]
-D64(e)   == [e EXCEPT !.d64 = TRUE]
-Plus(e)  == [e EXCEPT !.plus = TRUE]
-Ssz(e, n) == [e EXCEPT !.ssz = n]
-S(op, pfx, mn, enc, regk, rmk, msz) ==
+Ent(op, mn, enc)  == [E0 EXCEPT !.op = op, !.mn = mn, !.enc = enc]
+Ent2(op, mn, enc) == [E0 EXCEPT !.map = 2, !.op = op, !.mn = mn, !.enc = enc]
+Byte8(e)    == [e EXCEPT !.w8 = TRUE]
+WithImm(e, k)  == [e EXCEPT !.imm = k]
+WithExt(e, d)  == [e EXCEPT !.ext = d]
+Def64(e)   == [e EXCEPT !.d64 = TRUE]
+PlusReg(e)  == [e EXCEPT !.plus = TRUE]
+SrcSz(e, n) == [e EXCEPT !.ssz = n]
+Sse(op, pfx, mn, enc, regk, rmk, msz) ==
     [E0 EXCEPT !.map = 2, !.op = op, !.sse = TRUE, !.pfx = pfx, !.mn = mn, !.enc = enc, !.regk = regk, !.rmk = rmk, !.msz = msz]
 
 AluMn  == <<"add", "or", "adc", "sbb", "and", "sub", "xor", "cmp">>
@@ -149,62 +149,62 @@ SseArith == {<<81, "sqrtss", "sqrtsd", "sqrtps", "sqrtpd">>, <<88, "addss", "add
              <<95, "maxss", "maxsd", "maxps", "maxpd">>}
 
 Table ==
-    UNION {{B8(E(8 * k, AluMn[k + 1], "MR")), E(8 * k + 1, AluMn[k + 1], "MR"),
-            B8(E(8 * k + 2, AluMn[k + 1], "RM")), E(8 * k + 3, AluMn[k + 1], "RM"),
-            I(B8(E(8 * k + 4, AluMn[k + 1], "AI")), "ibs"), I(E(8 * k + 5, AluMn[k + 1], "AI"), "iz"),
-            X(I(B8(E(128, AluMn[k + 1], "MI")), "ibs"), k), X(I(E(129, AluMn[k + 1], "MI"), "iz"), k),
-            X(I(E(131, AluMn[k + 1], "MI"), "ibs"), k),
-            X(I(B8(E(192, ShMn[k + 1], "MI")), "ibu"), k), X(I(E(193, ShMn[k + 1], "MI"), "ibu"), k),
-            X(B8(E(208, ShMn[k + 1], "M1")), k), X(E(209, ShMn[k + 1], "M1"), k),
-            X(B8(E(210, ShMn[k + 1], "MC")), k), X(E(211, ShMn[k + 1], "MC"), k)} : k \in 0..7}
-    \cup UNION {{I(E(112 + c, JccMn[c + 1], "D"), "rel8"), I(E2(128 + c, JccMn[c + 1], "D"), "rel32"),
-                 E2(64 + c, CmovMn[c + 1], "RM"), B8(E2(144 + c, SetMn[c + 1], "M"))} : c \in 0..15}
-    \cup {Plus(D64(E(80, "push", "O"))), Plus(D64(E(88, "pop", "O"))),
-          Ssz(E(99, "movsxd", "RM"), 32),
-          I(D64(E(104, "push", "I")), "iz"), I(D64(E(106, "push", "I")), "ibs"),
-          I(E(105, "imul", "RMI"), "iz"), I(E(107, "imul", "RMI"), "ibs"),
-          B8(E(132, "test", "MR")), E(133, "test", "MR"), B8(E(134, "xchg", "MR")), E(135, "xchg", "MR"),
-          B8(E(136, "mov", "MR")), E(137, "mov", "MR"), B8(E(138, "mov", "RM")), E(139, "mov", "RM"),
-          [E(141, "lea", "RM") EXCEPT !.memonly = TRUE], X(D64(E(143, "pop", "M")), 0),
-          E(144, "nop", "ZO"), E(152, "@98", "ZO"), E(153, "@99", "ZO"),
-          B8(E(164, "movsb", "ZO")), B8(E(170, "stosb", "ZO")),
-          I(B8(E(168, "test", "AI")), "ibs"), I(E(169, "test", "AI"), "iz"),
-          Plus(I(B8(E(176, "mov", "OI")), "ibs")), Plus(I(E(184, "mov", "OI"), "iv")),
-          I(D64(E(194, "ret", "I")), "iw"), D64(E(195, "ret", "ZO")),
-          X(I(B8(E(198, "mov", "MI")), "ibs"), 0), X(I(E(199, "mov", "MI"), "iz"), 0),
-          D64(E(201, "leave", "ZO")), E(204, "int3", "ZO"), I(E(205, "int", "I"), "ibu"),
-          I(D64(E(232, "call", "D")), "rel32"), I(D64(E(233, "jmp", "D")), "rel32"), I(D64(E(235, "jmp", "D")), "rel8"),
-          E(244, "hlt", "ZO"),
-          X(I(B8(E(246, "test", "MI")), "ibs"), 0), X(B8(E(246, "not", "M")), 2), X(B8(E(246, "neg", "M")), 3),
-          X(B8(E(246, "mul", "M")), 4), X(B8(E(246, "imul", "M")), 5), X(B8(E(246, "div", "M")), 6), X(B8(E(246, "idiv", "M")), 7),
-          X(I(E(247, "test", "MI"), "iz"), 0), X(E(247, "not", "M"), 2), X(E(247, "neg", "M"), 3),
-          X(E(247, "mul", "M"), 4), X(E(247, "imul", "M"), 5), X(E(247, "div", "M"), 6), X(E(247, "idiv", "M"), 7),
-          X(B8(E(254, "inc", "M")), 0), X(B8(E(254, "dec", "M")), 1),
-          X(E(255, "inc", "M"), 0), X(E(255, "dec", "M"), 1), X(D64(E(255, "call", "M")), 2), X(D64(E(255, "jmp", "M")), 4),
-          X(D64(E(255, "push", "M")), 6),
-          E2(5, "syscall", "ZO"), E2(11, "ud2", "ZO"), X(E2(31, "nop", "M"), 0), E2(162, "cpuid", "ZO"),
-          E2(175, "imul", "RM"),
-          Ssz(E2(182, "movzx", "RM"), 8), Ssz(E2(183, "movzx", "RM"), 16),
-          Ssz(E2(190, "movsx", "RM"), 8), Ssz(E2(191, "movsx", "RM"), 16)}
+    UNION {{Byte8(Ent(8 * k, AluMn[k + 1], "MR")), Ent(8 * k + 1, AluMn[k + 1], "MR"),
+            Byte8(Ent(8 * k + 2, AluMn[k + 1], "RM")), Ent(8 * k + 3, AluMn[k + 1], "RM"),
+            WithImm(Byte8(Ent(8 * k + 4, AluMn[k + 1], "AI")), "ibs"), WithImm(Ent(8 * k + 5, AluMn[k + 1], "AI"), "iz"),
+            WithExt(WithImm(Byte8(Ent(128, AluMn[k + 1], "MI")), "ibs"), k), WithExt(WithImm(Ent(129, AluMn[k + 1], "MI"), "iz"), k),
+            WithExt(WithImm(Ent(131, AluMn[k + 1], "MI"), "ibs"), k),
+            WithExt(WithImm(Byte8(Ent(192, ShMn[k + 1], "MI")), "ibu"), k), WithExt(WithImm(Ent(193, ShMn[k + 1], "MI"), "ibu"), k),
+            WithExt(Byte8(Ent(208, ShMn[k + 1], "M1")), k), WithExt(Ent(209, ShMn[k + 1], "M1"), k),
+            WithExt(Byte8(Ent(210, ShMn[k + 1], "MC")), k), WithExt(Ent(211, ShMn[k + 1], "MC"), k)} : k \in 0..7}
+    \cup UNION {{WithImm(Ent(112 + cc, JccMn[cc + 1], "D"), "rel8"), WithImm(Ent2(128 + cc, JccMn[cc + 1], "D"), "rel32"),
+                 Ent2(64 + cc, CmovMn[cc + 1], "RM"), Byte8(Ent2(144 + cc, SetMn[cc + 1], "M"))} : cc \in 0..15}
+    \cup {PlusReg(Def64(Ent(80, "push", "O"))), PlusReg(Def64(Ent(88, "pop", "O"))),
+          SrcSz(Ent(99, "movsxd", "RM"), 32),
+          WithImm(Def64(Ent(104, "push", "I")), "iz"), WithImm(Def64(Ent(106, "push", "I")), "ibs"),
+          WithImm(Ent(105, "imul", "RMI"), "iz"), WithImm(Ent(107, "imul", "RMI"), "ibs"),
+          Byte8(Ent(132, "test", "MR")), Ent(133, "test", "MR"), Byte8(Ent(134, "xchg", "MR")), Ent(135, "xchg", "MR"),
+          Byte8(Ent(136, "mov", "MR")), Ent(137, "mov", "MR"), Byte8(Ent(138, "mov", "RM")), Ent(139, "mov", "RM"),
+          [Ent(141, "lea", "RM") EXCEPT !.memonly = TRUE], WithExt(Def64(Ent(143, "pop", "M")), 0),
+          Ent(144, "nop", "ZO"), Ent(152, "@98", "ZO"), Ent(153, "@99", "ZO"),
+          Byte8(Ent(164, "movsb", "ZO")), Byte8(Ent(170, "stosb", "ZO")),
+          WithImm(Byte8(Ent(168, "test", "AI")), "ibs"), WithImm(Ent(169, "test", "AI"), "iz"),
+          PlusReg(WithImm(Byte8(Ent(176, "mov", "OI")), "ibs")), PlusReg(WithImm(Ent(184, "mov", "OI"), "iv")),
+          WithImm(Def64(Ent(194, "ret", "I")), "iw"), Def64(Ent(195, "ret", "ZO")),
+          WithExt(WithImm(Byte8(Ent(198, "mov", "MI")), "ibs"), 0), WithExt(WithImm(Ent(199, "mov", "MI"), "iz"), 0),
+          Def64(Ent(201, "leave", "ZO")), Ent(204, "int3", "ZO"), WithImm(Ent(205, "int", "I"), "ibu"),
+          WithImm(Def64(Ent(232, "call", "D")), "rel32"), WithImm(Def64(Ent(233, "jmp", "D")), "rel32"), WithImm(Def64(Ent(235, "jmp", "D")), "rel8"),
+          Ent(244, "hlt", "ZO"),
+          WithExt(WithImm(Byte8(Ent(246, "test", "MI")), "ibs"), 0), WithExt(Byte8(Ent(246, "not", "M")), 2), WithExt(Byte8(Ent(246, "neg", "M")), 3),
+          WithExt(Byte8(Ent(246, "mul", "M")), 4), WithExt(Byte8(Ent(246, "imul", "M")), 5), WithExt(Byte8(Ent(246, "div", "M")), 6), WithExt(Byte8(Ent(246, "idiv", "M")), 7),
+          WithExt(WithImm(Ent(247, "test", "MI"), "iz"), 0), WithExt(Ent(247, "not", "M"), 2), WithExt(Ent(247, "neg", "M"), 3),
+          WithExt(Ent(247, "mul", "M"), 4), WithExt(Ent(247, "imul", "M"), 5), WithExt(Ent(247, "div", "M"), 6), WithExt(Ent(247, "idiv", "M"), 7),
+          WithExt(Byte8(Ent(254, "inc", "M")), 0), WithExt(Byte8(Ent(254, "dec", "M")), 1),
+          WithExt(Ent(255, "inc", "M"), 0), WithExt(Ent(255, "dec", "M"), 1), WithExt(Def64(Ent(255, "call", "M")), 2), WithExt(Def64(Ent(255, "jmp", "M")), 4),
+          WithExt(Def64(Ent(255, "push", "M")), 6),
+          Ent2(5, "syscall", "ZO"), Ent2(11, "ud2", "ZO"), WithExt(Ent2(31, "nop", "M"), 0), Ent2(162, "cpuid", "ZO"),
+          Ent2(175, "imul", "RM"),
+          SrcSz(Ent2(182, "movzx", "RM"), 8), SrcSz(Ent2(183, "movzx", "RM"), 16),
+          SrcSz(Ent2(190, "movsx", "RM"), 8), SrcSz(Ent2(191, "movsx", "RM"), 16)}
     \* SSE / SSE2 (scalar moves, arithmetic, conversions, compares; the packed siblings that share the opcodes)
-    \cup {S(16, 243, "movss", "RM", "xmm", "xmm", 32), S(16, 242, "movsd", "RM", "xmm", "xmm", 64),
-          S(16, 0, "movups", "RM", "xmm", "xmm", 128), S(16, 102, "movupd", "RM", "xmm", "xmm", 128),
-          S(17, 243, "movss", "MR", "xmm", "xmm", 32), S(17, 242, "movsd", "MR", "xmm", "xmm", 64),
-          S(17, 0, "movups", "MR", "xmm", "xmm", 128), S(17, 102, "movupd", "MR", "xmm", "xmm", 128),
-          S(40, 0, "movaps", "RM", "xmm", "xmm", 128), S(40, 102, "movapd", "RM", "xmm", "xmm", 128),
-          S(41, 0, "movaps", "MR", "xmm", "xmm", 128), S(41, 102, "movapd", "MR", "xmm", "xmm", 128),
-          S(42, 243, "cvtsi2ss", "RM", "xmm", "gpr", 0), S(42, 242, "cvtsi2sd", "RM", "xmm", "gpr", 0),
-          S(44, 243, "cvttss2si", "RM", "gpr", "xmm", 32), S(44, 242, "cvttsd2si", "RM", "gpr", "xmm", 64),
-          S(45, 243, "cvtss2si", "RM", "gpr", "xmm", 32), S(45, 242, "cvtsd2si", "RM", "gpr", "xmm", 64),
-          S(46, 0, "ucomiss", "RM", "xmm", "xmm", 32), S(46, 102, "ucomisd", "RM", "xmm", "xmm", 64),
-          S(47, 0, "comiss", "RM", "xmm", "xmm", 32), S(47, 102, "comisd", "RM", "xmm", "xmm", 64),
-          S(87, 0, "xorps", "RM", "xmm", "xmm", 128), S(87, 102, "xorpd", "RM", "xmm", "xmm", 128),
-          S(90, 243, "cvtss2sd", "RM", "xmm", "xmm", 32), S(90, 242, "cvtsd2ss", "RM", "xmm", "xmm", 64),
-          S(90, 0, "cvtps2pd", "RM", "xmm", "xmm", 64), S(90, 102, "cvtpd2ps", "RM", "xmm", "xmm", 128),
-          S(110, 102, "@movd", "RM", "xmm", "gpr", 0), S(126, 102, "@movd", "MR", "xmm", "gpr", 0),
-          S(239, 102, "pxor", "RM", "xmm", "xmm", 128)}
-    \cup UNION {{S(t[1], 243, t[2], "RM", "xmm", "xmm", 32), S(t[1], 242, t[3], "RM", "xmm", "xmm", 64),
-                 S(t[1], 0, t[4], "RM", "xmm", "xmm", 128), S(t[1], 102, t[5], "RM", "xmm", "xmm", 128)} : t \in SseArith}
+    \cup {Sse(16, 243, "movss", "RM", "xmm", "xmm", 32), Sse(16, 242, "movsd", "RM", "xmm", "xmm", 64),
+          Sse(16, 0, "movups", "RM", "xmm", "xmm", 128), Sse(16, 102, "movupd", "RM", "xmm", "xmm", 128),
+          Sse(17, 243, "movss", "MR", "xmm", "xmm", 32), Sse(17, 242, "movsd", "MR", "xmm", "xmm", 64),
+          Sse(17, 0, "movups", "MR", "xmm", "xmm", 128), Sse(17, 102, "movupd", "MR", "xmm", "xmm", 128),
+          Sse(40, 0, "movaps", "RM", "xmm", "xmm", 128), Sse(40, 102, "movapd", "RM", "xmm", "xmm", 128),
+          Sse(41, 0, "movaps", "MR", "xmm", "xmm", 128), Sse(41, 102, "movapd", "MR", "xmm", "xmm", 128),
+          Sse(42, 243, "cvtsi2ss", "RM", "xmm", "gpr", 0), Sse(42, 242, "cvtsi2sd", "RM", "xmm", "gpr", 0),
+          Sse(44, 243, "cvttss2si", "RM", "gpr", "xmm", 32), Sse(44, 242, "cvttsd2si", "RM", "gpr", "xmm", 64),
+          Sse(45, 243, "cvtss2si", "RM", "gpr", "xmm", 32), Sse(45, 242, "cvtsd2si", "RM", "gpr", "xmm", 64),
+          Sse(46, 0, "ucomiss", "RM", "xmm", "xmm", 32), Sse(46, 102, "ucomisd", "RM", "xmm", "xmm", 64),
+          Sse(47, 0, "comiss", "RM", "xmm", "xmm", 32), Sse(47, 102, "comisd", "RM", "xmm", "xmm", 64),
+          Sse(87, 0, "xorps", "RM", "xmm", "xmm", 128), Sse(87, 102, "xorpd", "RM", "xmm", "xmm", 128),
+          Sse(90, 243, "cvtss2sd", "RM", "xmm", "xmm", 32), Sse(90, 242, "cvtsd2ss", "RM", "xmm", "xmm", 64),
+          Sse(90, 0, "cvtps2pd", "RM", "xmm", "xmm", 64), Sse(90, 102, "cvtpd2ps", "RM", "xmm", "xmm", 128),
+          Sse(110, 102, "@movd", "RM", "xmm", "gpr", 0), Sse(126, 102, "@movd", "MR", "xmm", "gpr", 0),
+          Sse(239, 102, "pxor", "RM", "xmm", "xmm", 128)}
+    \cup UNION {{Sse(t[1], 243, t[2], "RM", "xmm", "xmm", 32), Sse(t[1], 242, t[3], "RM", "xmm", "xmm", 64),
+                 Sse(t[1], 0, t[4], "RM", "xmm", "xmm", 128), Sse(t[1], 102, t[5], "RM", "xmm", "xmm", 128)} : t \in SseArith}
 
 \* one-byte opcodes that are invalid in 64-bit mode (SDM appendix A, superscript i64)
 Invalid64 == {6, 7, 14, 22, 23, 30, 31, 39, 47, 55, 63, 96, 97, 130, 154, 206, 212, 213, 214, 234}
@@ -272,7 +272,7 @@ D5(b, pf, rex, e, opc, p, osz, rm) ==
            [] e.enc = "D" -> Fin(e, pf, osz, <<im>>, ip + ilen)
            [] OTHER -> Fin(e, pf, osz, <<>>, ip)
 D4(b, pf, rex, e, opc, p) ==
-    IF e.enc = "D" /\ pf.p66 THEN Bad("unsupported")          \* 16-bit branch displacement: vendor specific
+    IF (e.enc = "D" \/ e.mn \in {"call", "jmp", "ret"}) /\ pf.p66 THEN Bad("unsupported")   \* 16-bit near branches: vendor specific
     ELSE IF e.mn = "nop" /\ e.enc = "ZO" /\ rex.b = 1 THEN Bad("unsupported")    \* 41 90 is xchg r8, rax
     ELSE D5(b, pf, rex, e, opc, p, OSize(e, pf.p66, rex.w), IF HasModRM(e) THEN ParseRM(b, p, rex) ELSE NoRM)
 OpMatches(e, map, opc) == e.map = map /\ (IF e.plus THEN opc \div 8 = e.op \div 8 ELSE opc = e.op)
@@ -307,19 +307,19 @@ D1(b, pf) ==
 Decode(b) == D1(b, Prefixes(b, 1, NoPfx))
 
 \* ------------------------------------------------------------------ reference encoder
-\* i = the abstract instruction (what Decode yields); e = the table entry to encode it with
+\* ins = the abstract instruction (what Decode yields); e = the table entry to encode it with
 IsMemOp(o) == o.k = "mem"
 RegNum(o) == IF o.k = "reg" /\ o.hi THEN o.n + 4 ELSE o.n
-EncOps(e, i) ==     \* [reg, rm, imm]: the operands in their encoding roles (One = absent)
-    CASE e.enc = "MR" -> [reg |-> i.ops[2], rm |-> i.ops[1], imm |-> One]
-      [] e.enc = "RM" -> [reg |-> i.ops[1], rm |-> i.ops[2], imm |-> One]
-      [] e.enc \in {"M", "M1", "MC"} -> [reg |-> One, rm |-> i.ops[1], imm |-> One]
-      [] e.enc = "MI" -> [reg |-> One, rm |-> i.ops[1], imm |-> i.ops[2]]
-      [] e.enc = "RMI" -> [reg |-> i.ops[1], rm |-> i.ops[2], imm |-> i.ops[3]]
-      [] e.enc = "O" -> [reg |-> One, rm |-> i.ops[1], imm |-> One]
-      [] e.enc = "OI" -> [reg |-> One, rm |-> i.ops[1], imm |-> i.ops[2]]
-      [] e.enc = "AI" -> [reg |-> One, rm |-> One, imm |-> i.ops[2]]
-      [] e.enc \in {"I", "D"} -> [reg |-> One, rm |-> One, imm |-> i.ops[1]]
+EncOps(e, ins) ==     \* [reg, rm, imm]: the operands in their encoding roles (One = absent)
+    CASE e.enc = "MR" -> [reg |-> ins.ops[2], rm |-> ins.ops[1], imm |-> One]
+      [] e.enc = "RM" -> [reg |-> ins.ops[1], rm |-> ins.ops[2], imm |-> One]
+      [] e.enc \in {"M", "M1", "MC"} -> [reg |-> One, rm |-> ins.ops[1], imm |-> One]
+      [] e.enc = "MI" -> [reg |-> One, rm |-> ins.ops[1], imm |-> ins.ops[2]]
+      [] e.enc = "RMI" -> [reg |-> ins.ops[1], rm |-> ins.ops[2], imm |-> ins.ops[3]]
+      [] e.enc = "O" -> [reg |-> One, rm |-> ins.ops[1], imm |-> One]
+      [] e.enc = "OI" -> [reg |-> One, rm |-> ins.ops[1], imm |-> ins.ops[2]]
+      [] e.enc = "AI" -> [reg |-> One, rm |-> One, imm |-> ins.ops[2]]
+      [] e.enc \in {"I", "D"} -> [reg |-> One, rm |-> One, imm |-> ins.ops[1]]
       [] OTHER -> [reg |-> One, rm |-> One, imm |-> One]
 RegOps(o) == {x \in {o.reg, o.rm} : x.k = "reg"}
 HiBit(n) == IF n = None \/ n = RIP THEN 0 ELSE n \div 8
@@ -342,30 +342,30 @@ ImmBytes(e, im, osz) ==
     IF im.k = "rel" THEN IntBytes(im.d, ImmLen(e.imm, osz))
     ELSE IF im.k = "imm" THEN Slice(im.w, 1, ImmLen(e.imm, osz))
     ELSE <<>>
-RexFor(e, i, o) ==
-    LET w == IF i.osz = 64 /\ ~e.w8 /\ ~e.d64 THEN 1 ELSE 0
+RexFor(e, ins, o) ==
+    LET w == IF ins.osz = 64 /\ ~e.w8 /\ ~e.d64 THEN 1 ELSE 0
         r == IF o.reg.k \in {"reg", "xmm"} THEN RegNum(o.reg) \div 8 ELSE 0
         x == IF o.rm.k = "mem" THEN HiBit(o.rm.idx) ELSE 0
         bb == IF o.rm.k = "mem" THEN HiBit(o.rm.base) ELSE IF o.rm.k \in {"reg", "xmm"} THEN RegNum(o.rm) \div 8 ELSE 0
         low8 == \E q \in RegOps(o) : q.sz = 8 /\ ~q.hi /\ q.n \in 4..7
     IN [need |-> w + r + x + bb > 0 \/ low8, byte |-> RexByte(w, r, x, bb)]
-Encodable(e, i) ==
-    LET o == EncOps(e, i) IN
-    /\ ~((\E q \in RegOps(o) : q.hi) /\ RexFor(e, i, o).need)       \* ah..bh cannot be named with a REX prefix
+Encodable(e, ins) ==
+    LET o == EncOps(e, ins) IN
+    /\ ~((\E q \in RegOps(o) : q.hi) /\ RexFor(e, ins, o).need)       \* ah..bh cannot be named with a REX prefix
     /\ (o.rm.k = "mem" => o.rm.idx # 4)                              \* rsp cannot be an index
     /\ (e.memonly => o.rm.k = "mem")
-EncodeWith(e, i) ==
-    LET o == EncOps(e, i)
-        rex == RexFor(e, i, o)
+EncodeWith(e, ins) ==
+    LET o == EncOps(e, ins)
+        rex == RexFor(e, ins, o)
         regfield == IF e.ext # None THEN e.ext ELSE IF o.reg.k \in {"reg", "xmm"} THEN Low3(RegNum(o.reg)) ELSE 0
-    IN (IF ~e.sse /\ i.rep # 0 THEN <<i.rep>> ELSE <<>>)
-       \o (IF ~e.sse /\ ~e.w8 /\ i.osz = 16 THEN <<102>> ELSE <<>>)
+    IN (IF ~e.sse /\ ins.rep # 0 THEN <<ins.rep>> ELSE <<>>)
+       \o (IF ~e.sse /\ ~e.w8 /\ ins.osz = 16 THEN <<102>> ELSE <<>>)
        \o (IF e.sse /\ e.pfx # 0 THEN <<e.pfx>> ELSE <<>>)
        \o (IF rex.need THEN <<rex.byte>> ELSE <<>>)
        \o (IF e.map = 2 THEN <<15>> ELSE <<>>)
        \o <<IF e.plus THEN e.op + Low3(RegNum(o.rm)) ELSE e.op>>
        \o (IF HasModRM(e) THEN RMBytes(o.rm, regfield) ELSE <<>>)
-       \o ImmBytes(e, o.imm, i.osz)
+       \o ImmBytes(e, o.imm, ins.osz)
 
 \* ------------------------------------------------------------------ architectural register sets
 \* register families: 0..15 general purpose (al/ah/ax/eax/rax = 0), 16 + n = xmm n; flags and rip are not registers here
@@ -373,10 +373,10 @@ Fam(o) == IF o.k = "reg" THEN {o.n} ELSE IF o.k = "xmm" THEN {XmmBase + o.n} ELS
 Addr(o) == IF o.k = "mem" THEN {o.base, o.idx} \ {None, RIP} ELSE {}
 SrcR(o) == Fam(o) \cup Addr(o)          \* a source operand: the register, or the address registers of the memory operand
 DstW(o) == Fam(o)                       \* a destination: the register (a memory destination writes no register)
-Op(i, n) == IF n <= Len(i.ops) THEN i.ops[n] ELSE One
+Op(ins, n) == IF n <= Len(ins.ops) THEN ins.ops[n] ELSE One
 
 MnRW2 == {"add", "or", "adc", "sbb", "and", "sub", "xor", "xorps", "xorpd", "pxor"}
-         \cup {t[j] : t \in {u \in SseArith : u[1] # 81}, j \in 2..5} \cup {CmovMn[c] : c \in 1..16}
+         \cup {t[j] : t \in {u \in SseArith : u[1] # 81}, j \in 2..5} \cup {CmovMn[cc] : cc \in 1..16}
 MnR2  == {"cmp", "test", "comiss", "comisd", "ucomiss", "ucomisd"}
 MnW1R2 == {"mov", "movzx", "movsx", "movsxd", "lea", "movss", "movsd", "movups", "movupd", "movaps", "movapd", "cvtsi2ss",
            "cvtsi2sd", "cvttss2si", "cvttsd2si", "cvtss2si", "cvtsd2si", "cvtss2sd", "cvtsd2ss", "cvtps2pd", "cvtpd2ps", "movd",
@@ -385,55 +385,55 @@ MnRW1 == {"not", "neg", "inc", "dec"}
 MnShift == {"rol", "ror", "rcl", "rcr", "shl", "shr", "sar"}
 MnMulDiv == {"mul", "div", "idiv"}
 MnStack == {"push", "pop", "call", "ret", "leave"}
-MnNoRegs == {JccMn[c] : c \in 1..16} \cup {"nop", "int", "int3", "hlt", "ud2", "rep", "repne", "syscall", "cpuid", "movsb", "stosb",
+MnNoRegs == {JccMn[cc] : cc \in 1..16} \cup {"nop", "int", "int3", "hlt", "ud2", "rep", "repne", "syscall", "cpuid", "movsb", "stosb",
              "cbw", "cwde", "cdqe", "cwd", "cdq", "cqo", "ret", "leave"}
-OneOpImul(i) == i.mn = "imul" /\ Len(i.ops) = 1
-Modelled(i) == i.st = "ok" /\ (i.mn \in MnRW2 \cup MnR2 \cup MnW1R2 \cup MnRW1 \cup MnShift \cup MnMulDiv \cup MnStack \cup MnNoRegs
-                                       \cup {"imul", "xchg", "jmp"} \cup {SetMn[c] : c \in 1..16})
+OneOpImul(ins) == ins.mn = "imul" /\ Len(ins.ops) = 1
+Modelled(ins) == ins.st = "ok" /\ (ins.mn \in MnRW2 \cup MnR2 \cup MnW1R2 \cup MnRW1 \cup MnShift \cup MnMulDiv \cup MnStack \cup MnNoRegs
+                                       \cup {"imul", "xchg", "jmp"} \cup {SetMn[cc] : cc \in 1..16})
 
 \* registers named by the operands that the instruction reads / writes
-ExplReads(i) ==
-    LET a == Op(i, 1)  b == Op(i, 2)  c == Op(i, 3) IN
-    CASE i.mn \in MnRW2 \cup MnR2 \cup {"xchg"} -> SrcR(a) \cup SrcR(b)
-      [] i.mn \in MnW1R2 -> Addr(a) \cup SrcR(b)
-      [] i.mn \in MnRW1 \cup MnMulDiv -> SrcR(a)
-      [] i.mn \in MnShift -> SrcR(a)                           \* the count register cl is implicit (ImplReads)
-      [] i.mn = "imul" -> IF Len(i.ops) = 1 THEN SrcR(a) ELSE IF Len(i.ops) = 2 THEN SrcR(a) \cup SrcR(b) ELSE Addr(a) \cup SrcR(b)
-      [] i.mn \in {"push", "call", "jmp"} -> SrcR(a)
-      [] i.mn = "pop" -> Addr(a)
-      [] i.mn \in {SetMn[k] : k \in 1..16} -> Addr(a)
+ExplReads(ins) ==
+    LET a == Op(ins, 1)  b == Op(ins, 2)  cc == Op(ins, 3) IN
+    CASE ins.mn \in MnRW2 \cup MnR2 \cup {"xchg"} -> SrcR(a) \cup SrcR(b)
+      [] ins.mn \in MnW1R2 -> Addr(a) \cup SrcR(b)
+      [] ins.mn \in MnRW1 \cup MnMulDiv -> SrcR(a)
+      [] ins.mn \in MnShift -> SrcR(a)                           \* the count register cl is implicit (ImplReads)
+      [] ins.mn = "imul" -> IF Len(ins.ops) = 1 THEN SrcR(a) ELSE IF Len(ins.ops) = 2 THEN SrcR(a) \cup SrcR(b) ELSE Addr(a) \cup SrcR(b)
+      [] ins.mn \in {"push", "call", "jmp"} -> SrcR(a)
+      [] ins.mn = "pop" -> Addr(a)
+      [] ins.mn \in {SetMn[k] : k \in 1..16} -> Addr(a)
       [] OTHER -> {}
-ExplWrites(i) ==
-    LET a == Op(i, 1)  b == Op(i, 2) IN
-    CASE i.mn \in MnRW2 \cup MnW1R2 \cup MnRW1 \cup MnShift \cup {SetMn[k] : k \in 1..16} \cup {"pop"} -> DstW(a)
-      [] i.mn = "xchg" -> DstW(a) \cup DstW(b)
-      [] i.mn = "imul" -> IF Len(i.ops) = 1 THEN {} ELSE DstW(a)
+ExplWrites(ins) ==
+    LET a == Op(ins, 1)  b == Op(ins, 2) IN
+    CASE ins.mn \in MnRW2 \cup MnW1R2 \cup MnRW1 \cup MnShift \cup {SetMn[k] : k \in 1..16} \cup {"pop"} -> DstW(a)
+      [] ins.mn = "xchg" -> DstW(a) \cup DstW(b)
+      [] ins.mn = "imul" -> IF Len(ins.ops) = 1 THEN {} ELSE DstW(a)
       [] OTHER -> {}
 \* fixed registers the instruction names implicitly (SDM instruction pages)
-ImplReads(i) ==
-    CASE i.mn \in {"mul"} \/ OneOpImul(i) -> {0}
-      [] i.mn \in {"div", "idiv"} -> IF i.osz = 8 THEN {0} ELSE {0, 2}
-      [] i.mn \in {"cbw", "cwde", "cdqe", "cwd", "cdq", "cqo"} -> {0}
-      [] i.mn \in MnShift -> IF Op(i, 2) = Reg(1, 8) THEN {1} ELSE {}
-      [] i.mn = "movsb" -> IF i.rep # 0 THEN {1, 6, 7} ELSE {6, 7}
-      [] i.mn = "stosb" -> IF i.rep # 0 THEN {0, 1, 7} ELSE {0, 7}
-      [] i.mn = "cpuid" -> {0, 1}
-      [] i.mn = "leave" -> {5}
+ImplReads(ins) ==
+    CASE ins.mn \in {"mul"} \/ OneOpImul(ins) -> {0}
+      [] ins.mn \in {"div", "idiv"} -> IF ins.osz = 8 THEN {0} ELSE {0, 2}
+      [] ins.mn \in {"cbw", "cwde", "cdqe", "cwd", "cdq", "cqo"} -> {0}
+      [] ins.mn \in MnShift -> IF Op(ins, 2) = Reg(1, 8) THEN {1} ELSE {}
+      [] ins.mn = "movsb" -> IF ins.rep # 0 THEN {1, 6, 7} ELSE {6, 7}
+      [] ins.mn = "stosb" -> IF ins.rep # 0 THEN {0, 1, 7} ELSE {0, 7}
+      [] ins.mn = "cpuid" -> {0, 1}
+      [] ins.mn = "leave" -> {5}
       [] OTHER -> {}
-ImplWrites(i) ==
-    CASE i.mn \in {"mul", "div", "idiv"} \/ OneOpImul(i) -> IF i.osz = 8 THEN {0} ELSE {0, 2}
-      [] i.mn \in {"cbw", "cwde", "cdqe"} -> {0}
-      [] i.mn \in {"cwd", "cdq", "cqo"} -> {2}
-      [] i.mn = "movsb" -> IF i.rep # 0 THEN {1, 6, 7} ELSE {6, 7}
-      [] i.mn = "stosb" -> IF i.rep # 0 THEN {1, 7} ELSE {7}
-      [] i.mn = "syscall" -> {1, 11}                          \* rcx <- rip, r11 <- rflags
-      [] i.mn = "cpuid" -> {0, 1, 2, 3}
-      [] i.mn = "leave" -> {5}
+ImplWrites(ins) ==
+    CASE ins.mn \in {"mul", "div", "idiv"} \/ OneOpImul(ins) -> IF ins.osz = 8 THEN {0} ELSE {0, 2}
+      [] ins.mn \in {"cbw", "cwde", "cdqe"} -> {0}
+      [] ins.mn \in {"cwd", "cdq", "cqo"} -> {2}
+      [] ins.mn = "movsb" -> IF ins.rep # 0 THEN {1, 6, 7} ELSE {6, 7}
+      [] ins.mn = "stosb" -> IF ins.rep # 0 THEN {1, 7} ELSE {7}
+      [] ins.mn = "syscall" -> {1, 11}                          \* rcx <- rip, r11 <- rflags
+      [] ins.mn = "cpuid" -> {0, 1, 2, 3}
+      [] ins.mn = "leave" -> {5}
       [] OTHER -> {}
 \* the stack pointer as fixed implicit state of the stack instructions
-StackRegs(i) == IF i.mn \in MnStack THEN {4} ELSE {}
-Reads(i) == ExplReads(i) \cup ImplReads(i) \cup StackRegs(i)
-Writes(i) == ExplWrites(i) \cup ImplWrites(i) \cup StackRegs(i)
+StackRegs(ins) == IF ins.mn \in MnStack THEN {4} ELSE {}
+Reads(ins) == ExplReads(ins) \cup ImplReads(ins) \cup StackRegs(ins)
+Writes(ins) == ExplWrites(ins) \cup ImplWrites(ins) \cup StackRegs(ins)
 
 \* ------------------------------------------------------------------ printed assembly lines
 (* A printed operand (harness/x64gen.py: tokenize, purely lexical):          *)
